@@ -283,3 +283,109 @@ func summarize(ss []string) string {
 	}
 	return "[" + strings.Join(out, " ") + "]"
 }
+
+// ---- every payload length ------------------------------------------------------------------------
+//
+// "Forwarded unchanged ... the call reports the full length as written" over the payload size: every
+// length 0..1100 and 2^k-1, 2^k, 2^k+1 for k = 11..16, written one after the other through the handle
+// of a synchronous and of an asynchronous logger (with and without a logger-level layout) from ONE
+// buffer that is overwritten after every call; the appenders must have received exactly that sequence.
+
+type c12LenCase struct {
+	Kind string `json:"kind"`
+}
+
+func init() {
+	definePart("C12", "c12/write-lengths", "qt", "4 logger kinds x every payload length 0..1100 and 2^k-1, 2^k, 2^k+1 (k = 11..16), one reused buffer, in one life of the logger",
+		func(tier string, yield func(c12LenCase)) {
+			for _, k := range []string{"Logger", "Logger+layout", "AsyncLogger", "AsyncLogger+layout"} {
+				yield(c12LenCase{k})
+			}
+		},
+		func(c c12LenCase) (string, []Violation, int) {
+			confReset()
+			typ, layout, _ := strings.Cut(c.Kind, "+")
+			conf := map[string]string{"appender.w0.type": "Rec", "logger.c12named.type": typ, "logger.c12named.tags": "_vfx_*", "logger.c12named.appenderRef.ref": "w0"}
+			if layout != "" {
+				conf["logger.c12named.layout.type"] = "TextLayout"
+			}
+			if typ == "AsyncLogger" {
+				conf["logger.c12named.bufferSize"], conf["logger.c12named.bufferFullPolicy"] = "100", "Block"
+			}
+			h := log.GetLogger("c12named")
+			if err, pn := safeRefresh(conf); err != nil || pn != nil {
+				return "refresh-failed", []Violation{{Clause: "valid-config-rejected", Key: c.Kind, Detail: fmt.Sprintf("err=%v panic=%v", err, pn)}}, 1
+			}
+			var lens []int
+			for n := 0; n <= 1100; n++ {
+				lens = append(lens, n)
+			}
+			for k := 11; k <= 16; k++ {
+				lens = append(lens, 1<<k-1, 1<<k, 1<<k+1)
+			}
+			var v []Violation
+			buf := make([]byte, 0, 1<<16+2)
+			payload := func(n int) []byte {
+				b := buf[:n]
+				for i := range b {
+					b[i] = byte('A' + (i+n)%53)
+				}
+				return b
+			}
+			for _, n := range lens {
+				b := payload(n)
+				got, err := h.Write(b)
+				if got != n || err != nil {
+					v = append(v, Violation{Clause: "write-result", Key: c.Kind, Detail: fmt.Sprintf("Write of %d bytes returned (%d, %v)", n, got, err)})
+				}
+				for i := range b {
+					b[i] = '#'
+				}
+			}
+			safeCall(log.Destroy)
+			recMu.Lock()
+			items := append([]recItem(nil), recStore["w0"]...)
+			recMu.Unlock()
+			if len(items) != len(lens) {
+				v = append(v, Violation{Clause: "raw-writes-delivered", Key: c.Kind, Detail: fmt.Sprintf("%d writes were made, the appender received %d", len(lens), len(items))})
+			}
+			for i, it := range items {
+				if i >= len(lens) || len(v) > 5 {
+					break
+				}
+				if want := string(payload(lens[i])); it.Kind != "W" || it.ID != want {
+					v = append(v, Violation{Clause: "raw-writes-delivered", Key: c.Kind, Detail: fmt.Sprintf("write %d: %d bytes were written, the appender received %d bytes (%s)", i, lens[i], len(it.ID), summarize([]string{it.ID}))})
+				}
+			}
+			return fmt.Sprint(len(items)), v, len(lens)
+		})
+
+	// ---- one handle per name, however the name is spelled --------------------------------------------
+	definePart("C12", "c12/handle-identity", "qt", "GetLogger twice (and once more after a failed Refresh + Destroy) for 9 spellings of a name: always the same handle",
+		func(tier string, yield func(string)) {
+			for _, n := range []string{"c12named", "c12_named", "c12-named", "C12Named", "c12.named", "c12Named", "c12__x", "_lead", "x"} {
+				yield(n)
+			}
+		},
+		func(name string) (string, []Violation, int) {
+			confReset()
+			var v []Violation
+			var h1, h2, h3 *log.LoggerWrapper
+			p1 := safeCall(func() { h1 = log.GetLogger(name) })
+			p2 := safeCall(func() { h2 = log.GetLogger(name) })
+			if p1 != nil || p2 != nil {
+				// a name the library refuses outright is not a handle at all
+				return "refused", nil, 1
+			}
+			if h1 == nil || h1 != h2 {
+				v = append(v, Violation{Clause: "handle-not-identical", Key: name, Detail: fmt.Sprintf("GetLogger(%q) twice: %p and %p", name, h1, h2)})
+			}
+			// a Refresh that does not configure the name fails; after Destroy the name still maps to the same handle
+			safeRefresh(map[string]string{"appender.w0.type": "Rec", "logger.root.type": "Logger", "logger.root.appenderRef.ref": "w0"})
+			safeCall(log.Destroy)
+			if pn := safeCall(func() { h3 = log.GetLogger(name) }); pn == nil && h3 != h1 {
+				v = append(v, Violation{Clause: "handle-not-identical", Key: name, Detail: fmt.Sprintf("GetLogger(%q) after a failed Refresh and Destroy: %p, first %p", name, h3, h1)})
+			}
+			return "ok", v, 3
+		})
+}
